@@ -136,6 +136,7 @@ func rulesC14(c *Ctx) {
 	c14Round3(c)
 	c14SortComparators(c)
 	c14VRFFallback(c)
+	c14Round5(c)
 	c.Explain = append(c.Explain,
 		"C14 (elections deterministic, only eligible nodes) — decided: (a) filter-before-collect: every node enters the candidate lists of the validator and committee elections only on paths where the eligibility tests on that same node held (not frozen, not expired, election-eligible when VRF filtering is on, required role, stake claims satisfied, runtime suitability incl. version/suspension/TEE verification, validator-set membership when constrained), and limits are enforced structurally (per-entity and total validator caps at the insertion, minimum/exact committee sizes before members are returned, no committee stored when empty); (b) EndBlock returns exactly diffValidators(current, pending) and replaces the tracked set with pending on success; diffValidators removes with power 0 what is not pending and upserts what is new or changed; (c) all randomness of the scheduler comes from initRNG(DRBG(entropy,…)) with the entropy read from the beacon state, map-derived address lists are sorted before they are shuffled, and the stake ordering comparator is descending; map-iteration order sensitivity of the scheduler is decided under C01 (MAPORDER); (round 2) (d) VotingPowerFromStake tests for zero the very quantity it converts, after the last in-place operation on it (no elected validator gets power 0); (e) an entity is recorded as validator/rewardable entity only in an iteration that inserts one of its nodes; (f) an election pass cannot finish successfully without visiting the runtimes, and electCommittee stores or drops the committee on every success exit (fails on the current tree: known finding F26); (g) parameter changes are held to the same positive validator limits as the genesis (F25, found by a sub-agent and repaired).",
 		"NOT decided: that the ordering/tie-breaking yields the stated order for all stake distributions, voting-power monotonicity (VotingPowerFromStake arithmetic), stake-claim arithmetic at thresholds (StakeAccumulator), uniformity of shuffles.")
